@@ -76,8 +76,45 @@ fn cstr(s: &str) -> CString {
     CString::new(b).unwrap()
 }
 
+unsafe fn write_file(path: &str, data: &str) {
+    unsafe {
+        let c = cstr(path);
+        let fd = libc::open(c.as_ptr(), libc::O_WRONLY | libc::O_CLOEXEC);
+        if fd < 0 { die(&format!("open {} failed: {}", path, std::io::Error::last_os_error())); }
+        if libc::write(fd, data.as_ptr() as *const libc::c_void, data.len()) != data.len() as isize { die(&format!("write {} failed: {}", path, std::io::Error::last_os_error())); }
+        libc::close(fd);
+    }
+}
+
+/// The parent of a forked continuation: wait for it and leave with its status (the supervisor traces the continuation itself).
+unsafe fn relay(child: libc::pid_t) -> ! {
+    unsafe {
+        loop {
+            let mut st = 0;
+            let r = libc::waitpid(child, &mut st, 0);
+            if r < 0 { if *libc::__errno_location() == libc::EINTR { continue; } libc::_exit(71); }
+            if libc::WIFEXITED(st) { libc::_exit(libc::WEXITSTATUS(st)); }
+            if libc::WIFSIGNALED(st) { libc::_exit(128 + libc::WTERMSIG(st)); }
+        }
+    }
+}
+
 fn apply_setup(s: &Setup) {
     unsafe {
+        if s.userns {
+            // must precede chroot (a chrooted process may not create a user namespace)
+            if libc::unshare(libc::CLONE_NEWUSER | libc::CLONE_NEWNS | libc::CLONE_NEWPID) != 0 { die(&format!("unshare(user|mnt|pid) failed: {}", std::io::Error::last_os_error())); }
+            write_file("/proc/self/setgroups", "deny");
+            write_file("/proc/self/uid_map", "0 0 1");
+            write_file("/proc/self/gid_map", "0 0 1");
+            // first fork: pid 1 of the new pid namespace, which only waits; second fork: the worker proper (pid 2), so that
+            // signals and abort() behave as for any ordinary process
+            for _ in 0..2 {
+                let c = libc::fork();
+                if c < 0 { die("fork failed"); }
+                if c > 0 { relay(c); }
+            }
+        }
         if !s.jail.is_empty() {
             let j = cstr(&s.jail);
             if libc::chroot(j.as_ptr()) != 0 || libc::chdir(b"/\0".as_ptr() as *const c_char) != 0 {
